@@ -602,13 +602,17 @@ func init() {
 		ctx, cancel := context.WithCancel(context.Background())
 		defer cancel()
 		tick := time.Duration(c.Tick)
-		var poisoned atomic.Bool
+		var poisoned, runaway atomic.Bool
 		var calls atomic.Int64
 		f := func(i int) (int, error) {
 			if poisoned.Load() {
 				select {} // verdict taken: park the emitter so that the bubble can end
 			}
-			calls.Add(1)
+			if calls.Add(1) > 2_000_000 {
+				// two million calls and the virtual clock has not moved: the emitter does not pause between calls
+				runaway.Store(true)
+				select {}
+			}
 			if i >= c.N {
 				return 0, idErr(i)
 			}
@@ -641,6 +645,9 @@ func init() {
 		}
 		time.Sleep(time.Duration(c.Delay) * tick) // the outage lasts a while
 		synctest.Wait()
+		if runaway.Load() {
+			return fmt.Sprintf("Emit called its function two million times while the source was failing and the clock did not advance: failed indices are not paced (tick %v)", tick)
+		}
 		if c.Mode == "lift" {
 			// fail-fast: the first failure ends the emitter by itself
 			time.Sleep(4 * tick)
@@ -1481,4 +1488,8 @@ func progsC12Shared(t *testing.T) {
 			}
 		}
 	}
+}
+
+func progsC07(t *testing.T) {
+	progsGoexit(t, "C07")
 }
